@@ -2,6 +2,7 @@ package main
 
 import (
 	"fmt"
+	"go/token"
 	"go/types"
 
 	"golang.org/x/tools/go/ssa"
@@ -142,8 +143,19 @@ func init() {
 	})
 }
 
+// rootStores: every publication of dbState.root (Store, and also Swap /
+// CompareAndSwap, which publish just the same).
 func (c *Ctx) rootStores(fn *ssa.Function) []ssa.CallInstruction {
-	return c.callsOnField(fn, nAtomicStore, "dbState", "root")
+	out := c.callsOnField(fn, nAtomicStore, "dbState", "root")
+	out = append(out, c.callsOnField(fn, "sync/atomic.(Pointer).Swap", "dbState", "root")...)
+	out = append(out, c.callsOnField(fn, "sync/atomic.(Pointer).CompareAndSwap", "dbState", "root")...)
+	return out
+}
+
+// publishedArg: the new root pointer passed to Store/Swap/CompareAndSwap.
+func publishedArg(call ssa.CallInstruction) ssa.Value {
+	a := call.Common().Args
+	return a[len(a)-1]
 }
 func (c *Ctx) rootLoads(fn *ssa.Function) []ssa.CallInstruction {
 	return c.callsOnField(fn, nAtomicLoad, "dbState", "root")
@@ -308,7 +320,7 @@ func ruleCommitOrder(c *Ctx, r *Reporter) {
 		}
 	}
 	// (5) returned snapshot is the stored slice
-	stored := S.Common().Args[1]
+	stored := publishedArg(S)
 	okRet := false
 	var retPos string
 	for _, ia := range allInstrs(fn) {
@@ -420,7 +432,7 @@ func ruleRootMerge(c *Ctx, r *Reporter) {
 		r.undecided(name+"|shape", c.posStr(fn.Pos()), "expected one root Store and one root Load in Commit")
 		return
 	}
-	pub := stores[0].Common().Args[1] // pointer to the published slice
+	pub := publishedArg(stores[0]) // pointer to the published slice
 	ldv := loads[0].(ssa.Value)
 	// element stores into the published slice: addr = &(*pub)[i]
 	n := 0
@@ -613,7 +625,7 @@ func ruleRootLen(c *Ctx, r *Reporter) {
 			r.undecided(name+"|shape", c.posStr(fn.Pos()), "expected one root Store and one root Load")
 			continue
 		}
-		pub := stores[0].Common().Args[1]
+		pub := publishedArg(stores[0])
 		ldv := loads[0].(ssa.Value)
 		dep := false
 		if a := allocOf(pub); a != nil {
@@ -671,5 +683,158 @@ func ruleLockSites(c *Ctx, r *Reporter) {
 		if seen[n] == 0 {
 			r.anchorMissing("call of " + n)
 		}
+	}
+}
+
+func init() {
+	register(&Rule{
+		ID: "INIT-SHAPE", Props: []string{"C19"}, Floor: 5,
+		Doc: "a table's initialization record gets a new watch channel only when the table has none (init == nil); copies made when registering or marking initializers keep the channel; Commit clears the record only when its pending list is empty and queues exactly that record's channel; Initialized() reports false together with the record's channel only while initializers are pending",
+		Run: ruleInitShape,
+	})
+}
+
+func ruleInitShape(c *Ctx, r *Reporter) {
+	reg := c.Func("statedb", "genTable", "RegisterInitializer")
+	if reg == nil {
+		r.anchorMissing("statedb.(genTable).RegisterInitializer")
+		return
+	}
+	n := 0
+	for _, fn := range withAnon(reg) {
+		for _, ia := range allInstrs(fn) {
+			st, ok := ia.In.(*ssa.Store)
+			if !ok || !isFieldAddrOf(st.Addr, "tableInitialization", "watch") {
+				continue
+			}
+			n++
+			key := fmt.Sprintf("%s|watch channel assigned#%d", c.fnName(fn), n)
+			_, isMake := st.Val.(*ssa.MakeChan)
+			nilInit := false
+			for _, f := range factsAt(st.Block()) {
+				if bo, ok := f.Cond.(*ssa.BinOp); ok && isNilConst(bo.Y) {
+					if _, ok := loadOfField(bo.X, "tableEntry", "init"); ok {
+						if (bo.Op == token.EQL && f.Val) || (bo.Op == token.NEQ && !f.Val) {
+							nilInit = true
+						}
+					}
+				}
+			}
+			r.check(isMake && nilInit, key, c.posStr(instrPos(st)), "a new init channel is made only when the table has no initialization record", "the initialization record gets a new watch channel although the table already has one (waiters hold the old channel, which is then never closed), or the channel is not fresh")
+		}
+	}
+	if n == 0 {
+		r.anchorMissing("assignment of tableInitialization.watch in RegisterInitializer")
+	}
+	// copies keep the channel: every tableInitialization Alloc that is not the fresh literal is a whole-struct copy of *table.init
+	for _, fn := range withAnon(reg) {
+		for _, ia := range allInstrs(fn) {
+			a, ok := ia.In.(*ssa.Alloc)
+			if !ok || namedTypeName(a.Type()) != "tableInitialization" {
+				continue
+			}
+			whole := false
+			for _, st := range storesTo(fn, a) {
+				if p, ok := isLoad(st.Val); ok {
+					if _, ok := loadOfField(p, "tableEntry", "init"); ok {
+						whole = true
+					}
+				}
+			}
+			hasWatchStore := false
+			for _, ib := range allInstrs(fn) {
+				if st, ok := ib.In.(*ssa.Store); ok {
+					if fa, ok := st.Addr.(*ssa.FieldAddr); ok && fa.X == ssa.Value(a) {
+						if _, f, _ := fieldOf(fa); f == "watch" {
+							hasWatchStore = true
+						}
+					}
+				}
+			}
+			if hasWatchStore {
+				continue // the fresh literal, judged above
+			}
+			key := fmt.Sprintf("%s|copy of the record keeps its channel (%s)", c.fnName(fn), a.Comment)
+			r.check(whole, key, c.posStr(a.Pos()), "the private record is a struct copy of *table.init (same watch channel)", "a new initialization record is built without copying the existing one: its watch channel differs from the one handed to earlier waiters")
+		}
+	}
+	// Commit: init cleared only when pending is empty, and that record's channel is queued
+	if commit := c.Func("statedb", "writeTxnHandle", "Commit"); commit != nil {
+		found := false
+		for _, ia := range allInstrs(commit) {
+			st, ok := ia.In.(*ssa.Store)
+			if !ok || !isFieldAddrOf(st.Addr, "tableEntry", "init") {
+				continue
+			}
+			found = true
+			empty := false
+			for _, f := range factsAt(st.Block()) {
+				if bo, ok := f.Cond.(*ssa.BinOp); ok && bo.Op == token.EQL && f.Val {
+					if k, ok := constInt(bo.Y); ok && k == 0 {
+						if call, ok := bo.X.(*ssa.Call); ok {
+							if b, ok := call.Call.Value.(*ssa.Builtin); ok && b.Name() == "len" {
+								if _, ok := loadOfField(call.Call.Args[0], "tableInitialization", "pending"); ok {
+									empty = true
+								}
+							}
+						}
+					}
+				}
+			}
+			queued := false
+			for _, in := range st.Block().Instrs {
+				if call, ok := in.(*ssa.Call); ok {
+					if b, ok := call.Call.Value.(*ssa.Builtin); ok && b.Name() == "append" {
+						prov := map[string]bool{}
+						chanProvenance(commit, call.Call.Args[1], map[ssa.Value]bool{}, prov)
+						if prov["statedb.tableInitialization.watch"] {
+							queued = true
+						}
+					}
+				}
+			}
+			r.check(isNilConst(st.Val) && empty && queued, "statedb.(writeTxnHandle).Commit|init cleared iff no initializer pending", c.posStr(instrPos(st)), "table.init = nil only under len(init.pending) == 0, with init.watch queued for closing", "Commit clears the initialization record while initializers are pending, or without queueing its channel: the table reports initialized too early / waiters are never woken")
+		}
+		if !found {
+			r.bad("statedb.(writeTxnHandle).Commit|init cleared iff no initializer pending", c.posStr(commit.Pos()), "Commit never clears a completed initialization record: the init channel is never closed")
+		}
+	}
+	// Initialized()
+	if fn := c.Func("statedb", "genTable", "Initialized"); fn != nil {
+		good := true
+		n := 0
+		for _, ret := range returnsOf(fn) {
+			n++
+			b, isConst := ret.Results[0].(*ssa.Const)
+			if !isConst || b.Value == nil {
+				good = false
+				continue
+			}
+			isTrue := b.Value.String() == "true"
+			_, isInitWatchRes := loadOfField(stripConv(ret.Results[1]), "tableInitialization", "watch")
+			closed, _ := isGlobalLoad(ret.Results[1], "closedWatchChannel")
+			if isTrue && !closed {
+				good = false
+			}
+			if !isTrue {
+				if !isInitWatchRes {
+					good = false
+				}
+				pendingNonEmpty := false
+				for _, f := range factsAt(ret.Block()) {
+					if bo, ok := f.Cond.(*ssa.BinOp); ok && bo.Op == token.EQL && !f.Val {
+						if k, ok := constInt(bo.Y); ok && k == 0 {
+							pendingNonEmpty = true
+						}
+					}
+				}
+				if !pendingNonEmpty {
+					good = false
+				}
+			}
+		}
+		r.check(good && n >= 2, "statedb.(genTable).Initialized|shape", c.posStr(fn.Pos()), "false is returned only with the record's channel while initializers are pending; true comes with the closed channel", "Initialized() does not report (false, init.watch) exactly while the pending list is non-empty")
+	} else {
+		r.anchorMissing("statedb.(genTable).Initialized")
 	}
 }
